@@ -500,6 +500,9 @@ func ruleC20(c *Ctx) {
 		c.floor("C20-R5", 1)
 	}
 
+	c.rule("C20-R7", "the validated side is a complete decode: on every accepting path of ValidateEncodedResponse / ValidateEncodedLogoutResponsePOST the returned object is the target of exactly one xml.Unmarshal whose error is nil on that path (otherwise the validated header is a partial decode the pre-decoder cannot agree with)")
+	decodedComplete(c, "C20-R7", ssoSpec, loRespSpec)
+
 	// R2 + R3
 	type pd struct{ fn, typ string }
 	for _, p := range []pd{{"DecodeUnverifiedBaseResponse", "*types.UnverifiedBaseResponse"}, {"DecodeUnverifiedLogoutResponse", "*types.LogoutResponse"}} {
